@@ -17,6 +17,27 @@ Notation finish_exch := (finish_exch interval).
 Notation begin_exch := (begin_exch interval).
 Notation step := (step md timeout interval slice).
 Notation run := (run md timeout interval slice).
+Notation flush_then := (flush_then interval).
+
+(* parked at a send: of the last line of a command (CSend) or of a line in front of it (CSendPre) *)
+Definition is_send (p : cpc) : Prop := match p with CSend | CSendPre _ => True | _ => False end.
+
+Lemma send_pc_is_send : forall l, is_send (send_pc l).
+Proof. intros [|x l]; exact I. Qed.
+
+Lemma is_send_dec : forall p, {is_send p} + {~ is_send p}.
+Proof. intros p. destruct p; simpl; auto. Qed.
+
+Lemma flush_then_cases : forall now s1 c p,
+  (exists q, conn s1 = true /\ flush now (queue s1) = (true, q) /\
+             flush_then now s1 c p = fail_op now (release (close_conn s1)) c) \/
+  (exists q, conn s1 = true /\ flush now (queue s1) = (false, q) /\
+             flush_then now s1 c p = (set_rxbuf (set_queue s1 q) [], set_pc c p)) \/
+  (conn s1 = false /\ flush_then now s1 c p = fail_op now (release s1) c).
+Proof.
+  intros now s1 c p. unfold Model.flush_then. destruct (conn s1); [|right; right; auto].
+  destruct (flush now (queue s1)) as [[|] q]; [left|right; left]; exists q; auto.
+Qed.
 
 (* ------------------------------------------------------------------ the lock *)
 Definition lk (s : shared) : option nat * nat := (lock_owner s, lock_cnt s).
@@ -24,7 +45,7 @@ Definition lk (s : shared) : option nat * nat := (lock_owner s, lock_cnt s).
 (* how many times a caller parked at this point holds the communicator lock *)
 Definition cnt_of (c : cst) : nat :=
   match pc c with
-  | CSend | CRecv _ _ => if inmulti c then 2 else 1
+  | CSend | CRecv _ _ | CWaitB _ _ _ | CSendPre _ => if inmulti c then 2 else 1
   | CSleepX _ => 1
   | CAccess | CConnect | CLock => if inmulti c then 1 else 0
   | _ => 0
@@ -129,6 +150,13 @@ Proof.
   destruct (x_delay x =? 0). { apply next_in_multi_wf. } reflexivity.
 Qed.
 
+Lemma flush_then_wf : forall now s1 c p, is_send p -> wf (snd (flush_then now s1 c p)).
+Proof.
+  intros now s1 c p IS.
+  destruct (flush_then_cases now s1 c p) as [(q & _ & _ & ->)|[(q & _ & _ & ->)|(_ & ->)]]; try apply run_ops_wf.
+  unfold wf. simpl. destruct p; try contradiction; exact I.
+Qed.
+
 Lemma caller_step_wf : forall i now s c, wf c -> wf (snd (caller_step i now s c)).
 Proof.
   intros i now s c W. unfold Model.caller_step, wf in *.
@@ -138,8 +166,7 @@ Proof.
   - destruct (cur c). { apply run_ops_wf. }
     destruct (begin_exch now (acquire i s)) as [[s' p]|] eqn:E; [|apply run_ops_wf].
     apply begin_exch_lk in E. destruct E as [_ [Q|Q]]; subst; simpl; exact I.
-  - destruct (conn (acquire i s)); [|apply run_ops_wf].
-    destruct (flush now (queue (acquire i s))) as [[|] q]; [apply run_ops_wf|exact I].
+  - destruct (wait_of c =? 0); [apply (flush_then_wf now (acquire i s) c CSend I)|exact I].
   - destruct (x_noreply (cur_x c)). { apply finish_exch_wf. }
     destruct (try_frame md (x_n (cur_x c)) _) as [[r rst]|]; [apply finish_exch_wf|exact I].
   - destruct (queue s) as [|[a [d|]] q'].
@@ -149,6 +176,23 @@ Proof.
       * destruct (now <? e); [exact I|apply run_ops_wf].
     + destruct (a <=? now). { apply run_ops_wf. } destruct (now <? e); [exact I|apply run_ops_wf].
   - simpl. rewrite P. exact W.
+  - destruct first; [apply (flush_then_wf now s c (send_pc l) (send_pc_is_send l))|destruct l; exact I].
+  - destruct l; exact I.
+Qed.
+
+Lemma flush_then_mine : forall now s1 c i p, is_send p ->
+  lk s1 = (Some i, if inmulti c then 2 else 1)%nat ->
+  let q := flush_then now s1 c p in lk (fst q) = target i (cnt_of (snd q)).
+Proof.
+  intros now s1 c i p IS F.
+  assert (R : lk (release s1) = target i (if inmulti c then 1 else 0)%nat).
+  { destruct (inmulti c); [rewrite (lk_release _ (Some i) 1 F)|rewrite (lk_release _ (Some i) 0 F)]; reflexivity. }
+  destruct (flush_then_cases now s1 c p) as [(q & _ & _ & E)|[(q & _ & _ & E)|(_ & E)]]; simpl; rewrite E.
+  - destruct (fail_op_lk now (release (close_conn s1)) c i) as [A B]. { exact R. }
+    rewrite A, B. reflexivity.
+  - unfold cnt_of; simpl. destruct p; try contradiction; destruct (inmulti c); exact F.
+  - destruct (fail_op_lk now (release s1) c i) as [A B]. { exact R. }
+    rewrite A, B. reflexivity.
 Qed.
 
 (* Lemma A: a caller that holds the lock cnt_of c times (or finds it free) leaves it held cnt_of c' times *)
@@ -180,15 +224,8 @@ Proof.
   - (* CLock *)
     assert (F : lk (acquire i s) = (Some i, if inmulti c then 2 else 1)%nat).
     { unfold lk in *. simpl. destruct (inmulti c); inversion H; reflexivity. }
-    assert (R : lk (release (acquire i s)) = target i (if inmulti c then 1 else 0)%nat).
-    { destruct (inmulti c); [rewrite (lk_release _ (Some i) 1 F)|rewrite (lk_release _ (Some i) 0 F)]; reflexivity. }
-    destruct (conn (acquire i s)).
-    + destruct (flush now (queue (acquire i s))) as [[|] q].
-      * destruct (fail_op_lk now (release (close_conn (acquire i s))) c i) as [A B]. { exact R. }
-        simpl. rewrite A, B. reflexivity.
-      * unfold cnt_of; simpl. destruct (inmulti c); exact F.
-    + destruct (fail_op_lk now (release (acquire i s)) c i) as [A B]. { exact R. }
-      simpl. rewrite A, B. reflexivity.
+    destruct (wait_of c =? 0). { apply flush_then_mine; [exact I|exact F]. }
+    unfold cnt_of; simpl. destruct (inmulti c); exact F.
   - (* CSend *)
     assert (F : lk s = (Some i, if inmulti c then 2 else 1)%nat) by (destruct (inmulti c); exact H).
     destruct (x_noreply (cur_x c)). { apply finish_exch_lk. exact F. }
@@ -215,6 +252,12 @@ Proof.
   - (* CSleepX *) apply next_in_multi_lk; assumption.
   - (* CPause *) destruct (run_ops_lk now (rest c) s (outs c)) as [A B]. simpl. rewrite A, B. exact H.
   - (* CDone *) unfold cnt_of; simpl; rewrite ?P; exact H.
+  - (* CWaitB *)
+    assert (F : lk s = (Some i, if inmulti c then 2 else 1)%nat) by (destruct (inmulti c); exact H).
+    destruct first. { apply flush_then_mine; [apply send_pc_is_send|exact F]. }
+    unfold cnt_of; simpl. destruct l; simpl; destruct (inmulti c); exact F.
+  - (* CSendPre *)
+    destruct l as [|p l']; unfold cnt_of; simpl; exact H.
 Qed.
 
 (* ------------------------------------------------------------------ frame: what run_ops / fail_op / ... leave alone *)
@@ -365,7 +408,14 @@ Proof. induction sched as [|x r IH]; intros st H; simpl; auto. apply IH. apply l
 Lemma sendlog_connect_ok : forall s, sendlog (connect_ok s) = sendlog s.
 Proof. intros s. unfold connect_ok. destruct (last_error s); reflexivity. Qed.
 
-Lemma sendlog_caller_step : forall i now s c, pc c <> CSend -> sendlog (fst (caller_step i now s c)) = sendlog s.
+Lemma sendlog_flush_then : forall now s1 c p, sendlog (fst (flush_then now s1 c p)) = sendlog s1.
+Proof.
+  intros now s1 c p.
+  assert (FF := f_fail_op _ sendlog (fun _ _ => eq_refl) (fun _ => eq_refl)).
+  destruct (flush_then_cases now s1 c p) as [(q & _ & _ & ->)|[(q & _ & _ & ->)|(_ & ->)]]; rewrite ?FF; reflexivity.
+Qed.
+
+Lemma sendlog_caller_step : forall i now s c, ~ is_send (pc c) -> sendlog (fst (caller_step i now s c)) = sendlog s.
 Proof.
   intros i now s c NS. unfold Model.caller_step.
   assert (FR := f_run_ops _ sendlog (fun _ _ => eq_refl)).
@@ -380,9 +430,8 @@ Proof.
   - destruct (cur c). { rewrite FR. reflexivity. }
     destruct (begin_exch now (acquire i s)) as [[s2 p]|] eqn:E. { simpl. rewrite (FB _ _ _ _ E). reflexivity. }
     rewrite FF. reflexivity.
-  - destruct (conn (acquire i s)); [|rewrite FF; reflexivity].
-    destruct (flush now (queue (acquire i s))) as [[|] q]; [rewrite FF|]; reflexivity.
-  - exfalso. apply NS. reflexivity.
+  - destruct (wait_of c =? 0); [rewrite sendlog_flush_then|]; reflexivity.
+  - exfalso. apply NS. exact I.
   - destruct (queue s) as [|[a [d|]] q'].
     + destruct (now <? e); [|rewrite FF]; reflexivity.
     + destruct (a <=? now).
@@ -392,6 +441,8 @@ Proof.
   - apply FN.
   - apply FR.
   - reflexivity.
+  - destruct first; [rewrite sendlog_flush_then|]; reflexivity.
+  - exfalso. apply NS. exact I.
 Qed.
 
 Lemma sendlog_poll_step : forall nxt s p, sendlog (fst (poll_step nxt s p)) = sendlog s.
@@ -403,16 +454,17 @@ Qed.
 
 Lemma only_owner_writes : forall st x, lock_inv st ->
   sendlog (sh (step st x)) <> sendlog (sh st) ->
-  exists i c, fst (fst x) = TC i /\ nth_error (callers st) i = Some c /\ pc c = CSend /\ lock_owner (sh st) = Some i.
+  exists i c, fst (fst x) = TC i /\ nth_error (callers st) i = Some c /\ is_send (pc c) /\ lock_owner (sh st) = Some i.
 Proof.
   intros st [[t now] nxt] (I1 & _) H. unfold Model.step in H. destruct t as [i|].
   - destruct (nth_error (callers st) i) as [c|] eqn:Ci; [|congruence].
     destruct (caller_enabled i now (sh st) c); [|congruence].
     destruct (caller_step i now (sh st) c) as [s' c'] eqn:CS. simpl in H.
-    destruct (pc c) eqn:P; try (exfalso; apply H; replace s' with (fst (caller_step i now (sh st) c)) by (rewrite CS; reflexivity);
-                                apply sendlog_caller_step; congruence).
+    destruct (is_send_dec (pc c)) as [IS|NS].
+    2: { exfalso; apply H; replace s' with (fst (caller_step i now (sh st) c)) by (rewrite CS; reflexivity).
+         apply sendlog_caller_step; exact NS. }
     exists i, c. repeat split; auto.
-    assert (G : (cnt_of c > 0)%nat) by (unfold cnt_of; rewrite P; destruct (inmulti c); lia).
+    assert (G : (cnt_of c > 0)%nat) by (unfold cnt_of; destruct (pc c); try contradiction; destruct (inmulti c); lia).
     pose proof (I1 i c Ci G) as L. unfold lk in L. inversion L. reflexivity.
   - destruct (poll_enabled (sh st) (poll st)); [|congruence].
     destruct (poll_step nxt (sh st) (poll st)) as [s' p'] eqn:PS. simpl in H.
@@ -429,19 +481,54 @@ Proof.
   - destruct (a <=? now) eqn:E; inversion H. simpl. exact E.
 Qed.
 
-Lemma stale_discarded : forall i now s c s' c', pc c = CLock ->
-  caller_step i now s c = (s', c') -> pc c' = CSend ->
+(* the flush in front of the first send: if the caller comes out of it parked at a send, the receive buffer is empty
+   and nothing that has arrived by now is left on the socket *)
+Lemma stale_flush_then : forall now s1 c p s' c', flush_then now s1 c p = (s', c') -> is_send (pc c') ->
   rxbuf s' = [] /\ head_ready now (queue s') = false.
 Proof.
-  intros i now s c s' c' P H P'. unfold Model.caller_step in H. rewrite P in H.
-  destruct (conn (acquire i s)).
-  - destruct (flush now (queue (acquire i s))) as [[|] q] eqn:F.
-    + exfalso. pose proof (run_ops_lk now (rest c) (if inmulti c then release (release (close_conn (acquire i s))) else release (close_conn (acquire i s))) (outs c ++ [RFail])) as [_ B].
-      unfold Model.fail_op in H. rewrite H in B. simpl in B. unfold cnt_of in B. rewrite P' in B. destruct (inmulti c'); discriminate.
-    + inversion H; subst. simpl. split; [reflexivity|]. eapply flush_head; eauto.
-  - exfalso. pose proof (run_ops_lk now (rest c) (if inmulti c then release (release (acquire i s)) else release (acquire i s)) (outs c ++ [RFail])) as [_ B].
-    unfold Model.fail_op in H. rewrite H in B. simpl in B. unfold cnt_of in B. rewrite P' in B. destruct (inmulti c'); discriminate.
+  intros now s1 c p s' c' H P'.
+  assert (NF : forall s0, fail_op now s0 c = (s', c') -> False).
+  { intros s0 E. pose proof (run_ops_lk now (rest c) (if inmulti c then release s0 else s0) (outs c ++ [RFail])) as [_ B].
+    unfold Model.fail_op in E. rewrite E in B. simpl in B. unfold cnt_of in B.
+    destruct (pc c'); try contradiction; destruct (inmulti c'); discriminate. }
+  destruct (flush_then_cases now s1 c p) as [(q & _ & _ & E)|[(q & _ & F & E)|(_ & E)]]; rewrite E in H.
+  - exfalso. eapply NF; eauto.
+  - inversion H; subst. simpl. split; [reflexivity|]. eapply flush_head; eauto.
+  - exfalso. eapply NF; eauto.
 Qed.
+
+(* the step that brings a caller to its first send: from the lock when wait_before is 0, from the end of the first
+   sleep (CWaitB _ true _) when wait_before is set - then everything that arrived during the pause is discarded, too *)
+Lemma stale_discarded : forall i now s c s' c',
+  (pc c = CLock /\ wait_of c = 0) \/ (exists w l, pc c = CWaitB w true l) ->
+  caller_step i now s c = (s', c') -> is_send (pc c') ->
+  rxbuf s' = [] /\ head_ready now (queue s') = false.
+Proof.
+  intros i now s c s' c' [[P W]|(w & l & P)] H P'; unfold Model.caller_step in H; rewrite P in H.
+  - rewrite W in H. simpl in H. eapply stale_flush_then; eauto.
+  - eapply stale_flush_then; eauto.
+Qed.
+
+(* with wait_before set, the step at the lock only goes to sleep: nothing is flushed yet, the first line is not sent *)
+Lemma lock_then_sleep : forall i now s c, pc c = CLock -> wait_of c <> 0 ->
+  caller_step i now s c = (acquire i s, set_pc c (CWaitB (now + wait_of c) true (pre_of md c))).
+Proof.
+  intros i now s c P W. unfold Model.caller_step. rewrite P.
+  replace (wait_of c =? 0) with false by (symmetry; apply Z.eqb_neq; exact W). reflexivity.
+Qed.
+
+(* a sleep in front of a send lasts wait_before: the caller is not enabled before *)
+Lemma wait_before_honoured : forall i now s c w f l, pc c = CWaitB w f l -> caller_enabled i now s c = true -> w <= now.
+Proof. intros i now s c w f l P E. unfold caller_enabled in E. rewrite P in E. apply Z.leb_le. exact E. Qed.
+
+(* the lines in front of the last one: each is written, then the caller sleeps wait_before again, without another flush *)
+Lemma pre_line_step : forall i now s c p l, pc c = CSendPre (p :: l) ->
+  caller_step i now s c = (send_line i now s p, set_pc c (CWaitB (now + wait_of c) false l)).
+Proof. intros i now s c p l P. unfold Model.caller_step. rewrite P. reflexivity. Qed.
+
+Lemma later_sleep_step : forall i now s c w l, pc c = CWaitB w false l ->
+  caller_step i now s c = (s, set_pc c (send_pc l)).
+Proof. intros i now s c w l P. unfold Model.caller_step. rewrite P. reflexivity. Qed.
 
 (* the command is written into an empty receive buffer: the reply is framed from bytes received afterwards only *)
 Lemma recv_step_is_read_loop : forall i now s c e sl a d q',
@@ -557,6 +644,16 @@ Definition shape (s r : shared) : Prop :=
   (exists s0, f s0 = f s /\ f r = f (close_conn s0)) \/
   (exists s0, f s0 = f s /\ f r = f (set_last_error s0 true)).
 
+Lemma flush_then_shape : forall now s s1 c p, f s1 = f s -> shape s (fst (flush_then now s1 c p)).
+Proof.
+  intros now s s1 c p E. unfold shape.
+  assert (FF := f_fail_op _ f f_la f_rel).
+  destruct (flush_then_cases now s1 c p) as [(q & _ & _ & ->)|[(q & _ & _ & ->)|(_ & ->)]].
+  - right; right; left. exists s1. split; [exact E|]. rewrite FF. apply f_rel.
+  - left. simpl. rewrite f_rxbuf, f_queue. exact E.
+  - left. rewrite FF, f_rel. exact E.
+Qed.
+
 Lemma caller_step_shape : forall i now s c, shape s (fst (caller_step i now s c)).
 Proof.
   intros i now s c. unfold Model.caller_step, shape.
@@ -577,10 +674,7 @@ Proof.
   - left. destruct (cur c). { rewrite FR, f_rel. apply f_acq. }
     destruct (begin_exch now (acquire i s)) as [[s2 p]|] eqn:E. { simpl. rewrite (FB _ _ _ _ E). apply f_acq. }
     rewrite FF. apply f_acq.
-  - destruct (conn (acquire i s)); [|left; rewrite FF, f_rel; apply f_acq].
-    destruct (flush now (queue (acquire i s))) as [[|] q].
-    + right; right; left. exists (acquire i s). split; [apply f_acq|]. rewrite FF. apply f_rel.
-    + left. simpl. rewrite f_rxbuf, f_queue. apply f_acq.
+  - destruct (wait_of c =? 0); [apply flush_then_shape; apply f_acq|left; simpl; apply f_acq].
   - left. destruct (x_noreply (cur_x c)). { rewrite FI, f_sendlog. apply f_queue. }
     destruct (try_frame md (x_n (cur_x c)) _) as [[r rst]|].
     + rewrite FI, f_rxbuf, f_sendlog. apply f_queue.
@@ -599,6 +693,8 @@ Proof.
   - left. apply FN.
   - left. apply FR.
   - left. reflexivity.
+  - destruct first; [apply flush_then_shape; reflexivity|left; reflexivity].
+  - left. destruct l; [reflexivity|]. simpl. unfold send_line. rewrite f_sendlog. apply f_queue.
 Qed.
 End Shape.
 
